@@ -35,7 +35,7 @@ def dispatch (o : Oracle) (kind : String) (args : List String) (body : List (Lis
   | "render" => Render.session args body
   | "chain" => Chain.session args body
   | "noop" => Noop.session args body
-  | "dsl" => Dsl.session args body
+  | "dsl" => Dsl.session o.engine args body
   | "parser" => Parser.session args body
   | "app" => Flamego.Driver.App.session o.engine args body
   | _ => "bad-kind" :: body.map (fun _ => "bad-kind")
